@@ -25,6 +25,7 @@ var provideInvalidCauses = []string{
 var decorateInvalidCauses = []string{
 	"nonfunc", "nil", "typednil", "in-result", "out-param", "ptr-in-param", "ptr-out-result", "bad-optional",
 	"group-single-value", "unexported-in-field", "group-optional", "flatten-param", "embed-ptr-in",
+	"decorate-flatten-group",
 }
 
 var invokeInvalidCauses = []string{
@@ -152,6 +153,9 @@ func (w *World) buildInvalid(f *Fn, op *Op) interface{} {
 		return mk(ins, append(outs, t), 0, 1)
 	case "error-in-out-field":
 		return mk(ins, append(outs, outStruct(reflect.StructField{Name: "A", Type: v0}, reflect.StructField{Name: "E", Type: errT})), 0, 1)
+	case "decorate-flatten-group":
+		// flatten has no meaning for a decorator, which must return the whole group as []T
+		return mk(ins, append(outs, outStruct(reflect.StructField{Name: "A", Type: reflect.SliceOf(reflect.SliceOf(v0)), Tag: `group:"g1,flatten"`})), 0, 1)
 	case "group-single-value":
 		// decorator returning a single (non-slice) value for a group
 		return mk(ins, append(outs, outStruct(reflect.StructField{Name: "A", Type: v0, Tag: `group:"g1"`})), 0, 1)
